@@ -27,9 +27,10 @@ MAX_TERMS = 400
 
 
 class Pol:
-    def __init__(self, P, func, opaque=()):
+    def __init__(self, P, func, opaque=(), track_inv=False):
         self.P = P
         self.f = func
+        self.track_inv = track_inv  # atoms met in a denominator are written "1/atom"
         self.opaque = set(opaque)  # local names kept as atoms instead of being substituted
         self.du = get_defuse(func, P)
         self.unknown = []  # opaque constructs met
@@ -63,6 +64,8 @@ class Pol:
             if isinstance(e.op, (ast.Mult, ast.MatMult)):
                 return self._prod(l, r)
             if isinstance(e.op, (ast.Div, ast.FloorDiv)):
+                if self.track_inv:
+                    r = [(s_, frozenset(_inv(x) for x in a_)) for s_, a_ in r]
                 if len(r) <= 1:
                     return self._prod(l, r) if r else l
                 # denominator is a sum: opaque positive group if all its terms are positive
@@ -280,6 +283,35 @@ class Pol:
             else:
                 out += self._var(which, r, set())
         return out
+
+
+def _inv(atom):
+    return atom[2:] if atom.startswith("1/") else "1/" + atom
+
+
+def check_inverse(R, rule, fkey, terms, inverted=(), direct=(), what="", line=None):
+    """With Pol(track_inv=True): every atom matching a pattern of `inverted` must stand in a denominator, every atom
+    matching `direct` in a numerator.  (x / v and x * v have the same sign and the same atoms; only this tells them apart
+    when v is dimensionless.)"""
+    bad = []
+    n = 0
+    for s, a in terms:
+        for x in a:
+            inv = x.startswith("1/")
+            base = x[2:] if inv else x
+            if any(_match(base, [p]) for p in inverted):
+                n += 1
+                if not inv:
+                    bad.append((x, "multiplies where the model equation divides by it"))
+            if any(_match(base, [p]) for p in direct):
+                n += 1
+                if inv:
+                    bad.append((x, "divides where the model equation multiplies by it"))
+    if bad:
+        R.violation(rule, fkey, what or "numerator / denominator placement", "; ".join(f"{x} {why}" for x, why in sorted(set(bad))[:4]), line)
+    elif n:
+        R.ok(rule, fkey, what or "numerator / denominator placement", f"{n} atom occurrences in the expected position", line)
+    return n
 
 
 def fmt_terms(terms):
